@@ -354,6 +354,93 @@ def run(tier, seed):
     if len(set(res.values())) != 1:
         fails += 1
         rep.violation("neutrality:cycle", {"why": "cycle (input modified after the first pass) depends on the flavour of the iterable: %r" % (res,)})
+    # a source that fails while it is iterated: the very exception object surfaces, whether the source is a plain generator,
+    # a __getitem__ sequence or an async generator, and whatever its type (TypeError, AttributeError, ... included)
+    import asyncstdlib as _a2
+    for exc_t in (TypeError, AttributeError, KeyError, ValueError, RuntimeError):
+        res = {}
+        for fl in ("sync generator", "getitem sequence", "async generator"):
+            err = exc_t("raised by the source")
+
+            def sgen():
+                yield 1
+                yield 2
+                raise err
+
+            class _Seq:
+                def __getitem__(self, i):
+                    if i >= 2:
+                        raise err
+                    return i + 1
+
+            async def agen():
+                yield 1
+                yield 2
+                raise err
+            mk_src = {"sync generator": sgen, "getitem sequence": _Seq, "async generator": agen}[fl]
+            outs = []
+            for tname, tool in (("list", lambda s_: _a2.list(s_)), ("enumerate", lambda s_: _a2.list(_a2.enumerate(s_))), ("map", lambda s_: _a2.list(_a2.map(lambda x: x, s_))),
+                                ("zip", lambda s_: _a2.list(_a2.zip(s_, [7, 8, 9]))), ("sum", lambda s_: _a2.sum(s_)), ("sorted", lambda s_: _a2.sorted(s_)),
+                                ("takewhile", lambda s_: _a2.list(_a2.takewhile(lambda x: True, s_))), ("chain", lambda s_: _a2.list(_a2.chain(s_)))):
+                try:
+                    drive(tool(mk_src()))
+                    outs.append((tname, "returned"))
+                except BaseException as e:  # noqa
+                    outs.append((tname, "same object" if e is err else "%s: %s" % (type(e).__name__, e)))
+            res[fl] = repr(outs)
+            rep.count(("failing-source", exc_t.__name__, fl), True)
+        if len(set(res.values())) != 1 or "same object" not in next(iter(res.values())) or "returned" in "".join(res.values()):
+            fails += 1
+            rep.violation("neutrality:failing-source", {"exception": exc_t.__name__, "why": "a source raising %s after two items: %r" % (exc_t.__name__, res)})
+            break
+    # iter(callable, sentinel): the callable in every flavour
+    res = {}
+    for fl in ("def", "async", "partial", "object", "lambda-coro", "awaitclass"):
+        vals = [3, 1, 4, 0, 5]
+        state = {"i": 0}
+
+        def nxt():
+            state["i"] += 1
+            return vals[state["i"] - 1]
+
+        async def anxt():
+            return nxt()
+        if fl == "def":
+            fn = nxt
+        elif fl == "async":
+            fn = anxt
+        elif fl == "partial":
+            async def anxt2(_d):
+                return nxt()
+            fn = functools.partial(anxt2, None)
+        elif fl == "object":
+            class _O:
+                def __call__(self):
+                    return anxt()
+            fn = _O()
+        elif fl == "lambda-coro":
+            fn = lambda: anxt()  # noqa
+        else:
+            class _AC:
+                def __await__(self):
+                    return anxt().__await__()
+            fn = _AC
+
+        async def take():
+            out = []
+            async for v in _a2.iter(fn, 0):
+                out.append(v)
+                if len(out) > 4:
+                    break
+            return out
+        try:
+            res[fl] = repr(drive(take()))
+        except BaseException as e:  # noqa
+            res[fl] = "raised %r" % (e,)
+        rep.count(("iter-callable-flavour", fl), True)
+    if len(set(res.values())) != 1 or res["def"] != "[3, 1, 4]":
+        fails += 1
+        rep.violation("neutrality:iter-callable", {"why": "iter(callable, 0) depends on the flavour of the callable: %r" % (res,)})
     # sync(): a computation that fails with TypeError fails the same way whatever the flavour of the callable
     res = {}
 
